@@ -7,6 +7,7 @@ import (
 	"io"
 	"runtime"
 	"sync"
+	"time"
 
 	"nhooyr.io/websocket"
 	"nhooyr.io/websocket/wsjson"
@@ -267,6 +268,23 @@ func runC08(r *Run) {
 		}
 	}
 	var rereads []string
+	// ctxEnds: the peer takes nothing for 2 s, so the 1009 Close frame waits in the
+	// transport, and the context of the Read that hit the limit ends after 1 s,
+	// while that frame is on its way. That read is over: its context must not cut
+	// the Close frame off.
+	ctxEnds := special == 0 && !asyncLimit && !concWriter && api <= 1 && plan[len(plan)-1].over && eff >= 0 && t.Pct(30)
+	if ctxEnds {
+		holdPeer := true
+		peer.Hold = func() bool { return holdPeer && !rc.Lib.ClosedLocked() }
+		rc.Lib.Out().Cap = 0
+		rc.Lib.Out().HardCap = true
+		time.AfterFunc(2*time.Second, func() {
+			holdPeer = false
+			rc.Lib.Out().Cap = 1 << 30
+			r.S.Kick()
+		})
+		r.S.Count("probe.read-context-ends-while-the-1009-close-is-being-written")
+	}
 	rc.Lib.In().RChunk = t.Weighted(5, 0, 1, 2, 3)
 	rc.Lib.In().OpBudget = 1500
 	r.S.Stick = []int{0, 60}[t.Draw(2)]
@@ -324,6 +342,12 @@ func runC08(r *Run) {
 		runtime.ReadMemStats(&ms0)
 		for i, p := range plan {
 			var rs res
+			bg := bg
+			if ctxEnds && i == len(plan)-1 {
+				var cancel context.CancelFunc
+				bg, cancel = context.WithTimeout(bg, time.Second)
+				defer cancel()
+			}
 			switch api {
 			case 0:
 				_, rs.data, rs.err = c.Read(bg)
